@@ -8,6 +8,7 @@ import (
 	"os"
 	"path/filepath"
 	"sort"
+	"strings"
 	"time"
 )
 
@@ -146,6 +147,9 @@ func (r *Run) DirectionA(fam string, o TLCOpts, keep func(i int64, body string) 
 		if body, ok := CaseBody(line, "CASE"); ok {
 			i++
 			if keep == nil || keep(i, body) {
+				if CaseSuffix != "" && strings.HasSuffix(body, "}") {
+					body = body[:len(body)-1] + CaseSuffix
+				}
 				pool.Submit(append([]byte{'A'}, body...))
 			}
 		}
@@ -311,3 +315,7 @@ func Reproduce(c Candidate) (bool, string) {
 
 // Checks maps a property id to the function that decides it.
 var Checks = map[string]func(r *Run){}
+
+// CaseSuffix, when set, replaces the closing brace of every exported case: a
+// way for a check to add a field (e.g. the concretisation tier) to the cases.
+var CaseSuffix string
